@@ -204,6 +204,12 @@ pub fn apply(rt: &mut CoreRuntime, op: &Value, lcd: bool, full: bool, out: &mut 
             let _ = rt.memory.store(IMEM + a1 as u32, 8, a2 as u32);
             out.push(json!({}));
         }
+        "treset" => {
+            // the host re-arms the timers at the current cycle (public TimerContext::reset), at any point of a run
+            let c = rt.cycle_count();
+            rt.timer.reset(c);
+            out.push(json!({}));
+        }
         "imem_or" => {
             let cur = rt.memory.read_internal_byte_silent(a1 as u32).unwrap_or(0) as u32;
             let _ = rt.memory.store(IMEM + a1 as u32, 8, cur | a2 as u32);
